@@ -1,7 +1,7 @@
 SPECIFICATION SizeSpec
 CONSTANTS
-  MaxB = 5
-  MaxN = 6
+  MaxB = 7
+  MaxN = 8
   AsIsD10 = FALSE
   AsIsD12 = FALSE
 INVARIANTS Agrees EmitCase
